@@ -129,6 +129,12 @@ Fixpoint has_exists (e : expr) : bool :=
 Definition boolean_valued (e : expr) : bool :=
   match e with EVar _ | ECon _ => false | _ => true end.
 
+(* not a boolean literal *)
+Definition nb (t : term) : bool := match kind_of t with KBool _ => false | _ => true end.
+(* BIND(?b AS ?c) / BIND(true AS ?c): a copy of a boolean *)
+Definition copies_bool (e : expr) (bv : list var) : bool :=
+  match e with EVar w => memv w bv | ECon t => negb (nb t) | _ => false end.
+
 (* variables bound by BIND to the value of a boolean expression *)
 Fixpoint bool_vars (p : alg) : list var :=
   match p with
@@ -136,7 +142,8 @@ Fixpoint bool_vars (p : alg) : list var :=
   | Join _ a b | Union a b | Minus a b => bool_vars a ++ bool_vars b
   | LeftJoin _ a b e => bool_vars a ++ bool_vars b ++ bool_vars_e e
   | Filter _ _ e q => bool_vars_e e ++ bool_vars q
-  | Extend _ q v e => (if boolean_valued e then [v] else []) ++ bool_vars_e e ++ bool_vars q
+  | Extend _ q v e =>
+      (if boolean_valued e || copies_bool e (bool_vars q) then [v] else []) ++ bool_vars_e e ++ bool_vars q
   | Project q _ | Graph _ q | Distinct q => bool_vars q
   end
 with bool_vars_e (e : expr) : list var :=
@@ -218,7 +225,11 @@ Fixpoint scan (names : list term) (inex : bool) (pushed : list var) (p : alg) {s
       (if subsetv (inter pushed (allvars q)) vs then 0 else 4)
       |>| scan names inex pushed q
   | Graph _ q => scan names inex pushed q
-  | Distinct q => scan names inex pushed q
+  | Distinct q =>
+      (* evalDistinct under pushed bindings collapses solutions that differ only in
+         whether they bind a pushed variable themselves (finding F-C04-4) *)
+      (if negb inex && nonempty (inter pushed (minusv (maybe q) (cert q))) then 4 else 0)
+      |>| scan names inex pushed q
   end
 with scan_e (names : list term) (pushed : list var) (e : expr) {struct e} : N :=
   match e with
